@@ -1,6 +1,7 @@
 STREAM = dict(
     name="token", quick=32, thorough=1200, check_module="Genesis.Token", check_fn="check_token",
     codes={1: "token-export-does-not-validate", 2: "token-import-panics", 3: "token-second-export-differs",
-           4: "token-query-differs-after-import"},
+           4: "token-query-differs-after-import",
+           5: "token-import-panics.fee-denom-is-not-a-registered-symbol"},
     nontrivial="at least two user tokens exist and some amount was burned (a burned tally is exported)",
 )
